@@ -45,6 +45,7 @@ type Run struct {
 	Tier string
 
 	vmu        sync.Mutex
+	trackMu    sync.Mutex
 	Viol       []Violation
 	Nontrivial bool
 	Class      string         // coarse scenario class (distinctness / stats)
@@ -237,10 +238,13 @@ func (r *Run) cleanup() {
 	r.steps = r.S.Step()
 	r.S.Drain()
 	r.stop()
-	for _, e := range r.ends {
+	r.trackMu.Lock()
+	ends, conns := append([]*simrt.End(nil), r.ends...), append([]*websocket.Conn(nil), r.conns...)
+	r.trackMu.Unlock()
+	for _, e := range ends {
 		e.Close()
 	}
-	for _, c := range r.conns {
+	for _, c := range conns {
 		if c != nil {
 			c.CloseNow()
 		}
@@ -250,6 +254,11 @@ func (r *Run) cleanup() {
 
 // Track registers connections and endpoints for cleanup.
 func (r *Run) Track(c *websocket.Conn, es ...*simrt.End) {
+	// (a real mutex, visible to the race detector: a connection created by an actor
+	// is handed to the root goroutine's cleanup through this list, and that hand-over
+	// must not look like a race between newConn and the cleanup's CloseNow)
+	r.trackMu.Lock()
+	defer r.trackMu.Unlock()
 	if c != nil {
 		r.conns = append(r.conns, c)
 	}
